@@ -7,9 +7,21 @@
    compared per request). *)
 From Coq Require Import String.
 From Suiron Require Import Model.Term Model.Subst Model.Builtins Model.Rename Model.Solve Spec.SpecSolve
-  Spec.Refine Proofs.SolveDead Proofs.SolveMisc.
+  Spec.Refine Spec.SpecLazy Proofs.SolveDead Proofs.SolveMisc Proofs.RefinePlain Proofs.RefineDen.
 
-Definition C04_full : Prop := refines_reference.
+Definition C04_full_with_cut : Prop := refines_reference.
+
+(* For cut-free programs (calls, conjunctions, disjunctions, built-ins incl. print, print_list,
+   nl) the order and multiplicity of output is PROVED: the final world reached by draining a
+   query - its `out` field is everything written - is the final world of the reference search
+   (Spec/SpecLazy.v), which writes exactly when it executes a print goal, once per execution,
+   in depth-first order. *)
+Theorem C04_output_of_cutfree_search : forall kb bf, plain_kb kb ->
+  forall q w fs R nd w1 m F R',
+    answers kb bf fs q w = Ok R ->
+    make_base_node kb (GCall q) w = Ok (nd, w1) ->
+    drainK kb bf m F nd w1 (fun s w' => Ok ([s], w')) = Ok R' -> out (snd R') = out (snd R).
+Proof. intros. now rewrite (refines_lazy kb bf H q w fs R nd w1 m F R'). Qed.
 
 (* print: the first argument, cut at its "%s" markers into pieces p0, p1, .., pn, is written
    with the later arguments substituted for the markers in order; surplus arguments are
@@ -35,5 +47,6 @@ Check C04_print_format : forall p0 pieces args,
   no_pct p0 -> Forall no_pct pieces ->
   format_for_print_pred (with_markers p0 pieces :: args) = Ok (p0 ++ fill args pieces).
 
+Print Assumptions C04_output_of_cutfree_search.
 Print Assumptions C04_print_format.
 Print Assumptions C04_no_output_after_exhaustion.
